@@ -52,6 +52,7 @@ def run_dqn_family(ctx, which, K, start, symbolic=("batch_size", "total_episodes
         train_step_with_loss=rec.fn("train_step", ret=(0.0, (0.0, 0.0)) if which == "per" else (0.0, 0.0)),
         nnx=W.NnxShim(w, env), trange=W.trange_stub, jax=W.JaxShim("rolls" in symbolic),
     )
+    jshim = names["jax"]
     kwargs = dict(batch_size=cfg["batch_size"], total_timesteps=total, seed=1, logger=None, global_step=start, progress_bar=False)
     if which != "dqn":
         cfg["update_frequency"] = _param("update_frequency", symbolic, 1, 3, 1)
@@ -67,6 +68,7 @@ def run_dqn_family(ctx, which, K, start, symbolic=("batch_size", "total_episodes
     with overlay(mod, **names):
         res = getattr(mod, fname)(q, env, buf, opt, **kwargs)
     returned = getattr(res, "global_step", None)
+    w.rolls = list(np.asarray(jshim.random.draws[0], dtype=object).reshape(-1)) if jshim.random.draws else None
     return Trace(which, w, env, buf, cfg, res, returned, start, K)
 
 
